@@ -16,7 +16,10 @@
 //! <content> = g<id> (generic bytes) | m<k> (data-map chunk of data set k) | e<k>.<i> (i-th encrypted chunk of set k)
 //! <reply>   = nf | to | km | nc=<rec> | dn=<rec> | ok=<rec> | sp=<rec>,<rec>,...   (split: `result_map.values()` iterates in
 //!             exactly the listed order — the harness rebuilds the HashMap until it does)
-//! <rec>     = <hdr>:<body>;  hdr = c (Chunk) | s (Scratchpad) | o (ChunkWithPayment) | p (ScratchpadWithPayment) | x (unparsable)
+//! <rec>     = <hdr>:<body>[@<key>];  hdr = c (Chunk) | s (Scratchpad) | o (ChunkWithPayment) | p (ScratchpadWithPayment) | x (unparsable)
+//!             `Record.key` of the reply (chosen by the holder, compared with the queried key by nobody below the client):
+//!             absent = the requested key | @own = the key the body itself determines (chunk: hash of its content, pad: its
+//!             owner's scratchpad address; the requested key for J/Z) | @<content> = that chunk's key | @v<owner> = that vault key
 //!             body = <content> | P<owner>.<counter>.<sig>.<ver> | J (junk) | Z (nothing after the header)
 //!             sig = v (signed by <owner>) | n (no signature) | w (signed by a stranger) | i (valid for counter-1, counter inflated)
 //!             pad data is always encrypted to the *requested* key so decryption never masks a missing check
@@ -177,8 +180,44 @@ fn build_pad(desc: &str, target: u64) -> Option<Scratchpad> {
     rmp_serde::from_slice(&bytes).ok()
 }
 
+fn vault_key(owner: u64) -> RecordKey {
+    ant_protocol::NetworkAddress::from_scratchpad_address(ScratchpadAddress::new(bls_sk(owner).public_key())).to_record_key()
+}
+
+/// `<hdr>:<body>[@<key>]` -> (hdr, body, key spec)
+fn split_rec(desc: &str) -> Option<(&str, &str, Option<&str>)> {
+    let (rec, k) = match desc.split_once('@') {
+        Some((r, k)) => (r, Some(k)),
+        None => (desc, None),
+    };
+    let (h, body) = rec.split_once(':')?;
+    Some((h, body, k))
+}
+
+/// the `Record.key` the holder files the reply under
+fn rec_key(w: &World, body: &str, spec: Option<&str>, requested: &RecordKey) -> Option<RecordKey> {
+    match spec {
+        None => Some(requested.clone()),
+        Some("own") => {
+            if let Some(p) = body.strip_prefix('P') {
+                Some(vault_key(p.split('.').next()?.parse().ok()?))
+            } else if body == "J" || body == "Z" {
+                Some(requested.clone())
+            } else {
+                Some(chunk_key(&w.content(body)?))
+            }
+        }
+        Some(k) => match k.strip_prefix('v') {
+            Some(o) => Some(vault_key(o.parse().ok()?)),
+            None => Some(chunk_key(&w.content(k)?)),
+        },
+    }
+}
+
 fn build_rec(w: &World, desc: &str, key: &RecordKey, target: u64) -> Option<Record> {
-    let (h, body) = desc.split_once(':')?;
+    let (h, body, kspec) = split_rec(desc)?;
+    let filed_under = rec_key(w, body, kspec, key)?;
+    let key = &filed_under;
     let mut value: Vec<u8> = match h {
         "c" => RecordHeader { kind: RecordKind::Chunk }.try_serialize().ok()?.to_vec(),
         "s" => RecordHeader { kind: RecordKind::Scratchpad }.try_serialize().ok()?.to_vec(),
@@ -450,7 +489,7 @@ fn exec(w: &World, rt: &tokio::runtime::Runtime, line: &str) -> String {
                 return "bad-op".to_string();
             }
             let sk = bls_sk(kn);
-            let rkey = ant_protocol::NetworkAddress::from_scratchpad_address(ScratchpadAddress::new(sk.public_key())).to_record_key();
+            let rkey = vault_key(kn);
             let Some(rep) = build_reply(w, reply, &rkey, kn) else { return "bad-op".to_string() };
             let mut net = new_net();
             let client = net.client.clone();
@@ -495,7 +534,7 @@ fn pads_of_reply(reply: &str) -> Vec<PadD> {
         return v; // records inside error replies other than a split are not handed to the vault code as data
     }
     for r in recs_of_reply(reply) {
-        if let Some((h, b)) = r.split_once(':') {
+        if let Some((h, b, _)) = split_rec(&r) {
             if let Some(p) = b.strip_prefix('P') {
                 let f: Vec<&str> = p.split('.').collect();
                 if f.len() == 4 {
@@ -603,6 +642,15 @@ fn gen_hdr(rng: &mut Rng, likely: &str) -> String {
     }
 }
 /// a record for a chunk read whose honest content would be `want`
+/// what the holder files the record under: mostly the requested key, else its own / another chunk's / a vault key
+fn gen_key_suffix(rng: &mut Rng) -> String {
+    match rng.below(10) {
+        0..=5 => String::new(),
+        6 | 7 => "@own".into(),
+        8 => format!("@{}", gen_content(rng)),
+        _ => format!("@v{}", rng.below(N_OWNERS)),
+    }
+}
 fn gen_chunk_rec(rng: &mut Rng, want: &str) -> String {
     let body = match rng.below(10) {
         0..=4 => want.to_string(),
@@ -611,7 +659,7 @@ fn gen_chunk_rec(rng: &mut Rng, want: &str) -> String {
         8 => "Z".into(),
         _ => gen_pad(rng, 0),
     };
-    format!("{}:{}", gen_hdr(rng, "c"), body)
+    format!("{}:{}{}", gen_hdr(rng, "c"), body, gen_key_suffix(rng))
 }
 fn gen_pad_rec(rng: &mut Rng, key: u64) -> String {
     let body = match rng.below(12) {
@@ -620,12 +668,14 @@ fn gen_pad_rec(rng: &mut Rng, key: u64) -> String {
         10 => "Z".into(),
         _ => gen_content(rng),
     };
-    format!("{}:{}", gen_hdr(rng, "s"), body)
+    format!("{}:{}{}", gen_hdr(rng, "s"), body, gen_key_suffix(rng))
 }
 fn gen_reply(rng: &mut Rng, mut rec: impl FnMut(&mut Rng) -> String, honest: u64, honest_rec: &str) -> String {
     // honest/20 of the replies are the honest record
     if rng.below(20) < honest {
-        return format!("ok={honest_rec}");
+        // authentic content; one in eight filed under some other key (the client does not look at it)
+        let k = if rng.chance(1, 8) { gen_key_suffix(rng) } else { String::new() };
+        return format!("ok={honest_rec}{k}");
     }
     match rng.below(12) {
         0 => "nf".into(),
@@ -717,6 +767,30 @@ const CORPUS: &[&str] = &[
     "vault 0 sp=o:P0.5.v.0,s:P0.3.v.0",
     "vault 0 sp=s:P0.3.v.0,o:P0.5.v.0",
     "vault 1 sp=s:P1.4.v.0,s:P1.4.v.1",
+    // Record.key chosen by the holder: another chunk's genuine record under that chunk's own key, requested content under a foreign key
+    "chunk g0 ok=c:g1@own",
+    "chunk m0 ok=c:m1@own",
+    "chunk g0 ok=c:g0@own",
+    "chunk g0 ok=c:g0@g1",
+    "chunk g0 ok=c:g0@v1",
+    "chunk e0.1 ok=c:e1.1@own",
+    "chunk g0 ok=s:g1@own",
+    "chunk g0 nc=c:g1@own",
+    "chunk g0 sp=c:g1@own,c:g2@own",
+    "data 0 o=0.0.0 m=ok=c:m1@own e0=ok=c:e0.0 e1=ok=c:e0.1 e2=ok=c:e0.2",
+    "data 0 o=0.0.0 m=ok=c:m1@own e0=ok=c:e1.0@own e1=ok=c:e1.1@own e2=ok=c:e1.2@own",
+    "data 0 o=1.0.0 m=ok=c:m0 e0=ok=c:e0.0 e1=ok=c:e1.1@own e2=ok=c:e0.2",
+    "data 2 o=0.1.0 m=ok=c:m2 e0=ok=c:g1@own e1=ok=c:e2.1 e2=ok=c:e2.2",
+    "data 0 o=2.1.0 m=ok=c:m0@g3 e0=ok=c:e0.0@v1 e1=ok=c:e0.1@e1.1 e2=ok=c:e0.2@own",
+    "vault 0 ok=s:P1.3.v.0@own",
+    "vault 0 ok=s:P1.3.v.0@v1",
+    "vault 0 ok=s:P0.3.v.0@v1",
+    "vault 0 ok=s:P0.3.v.0@g0",
+    "vault 0 ok=s:P0.3.n.0@own",
+    "vault 0 sp=s:P1.9.v.1@own,s:P0.3.v.0",
+    "vault 0 sp=c:J,s:P1.9.v.1@own,s:P0.3.v.0@g0",
+    "vault 0 sp=c:J,s:P0.4.v.1@v2,s:P0.3.v.0@own",
+    "vault 2 sp=s:P0.7.v.0@own,s:P1.8.v.0@own",
 ];
 
 fn main() {
